@@ -171,7 +171,7 @@ impl World for WorldI {
                         if !known.is_empty() && rng.chance(3, 4) { *rng.pick(&known) } else { rng.below(8) as u8 }
                     },
                     chain: if !cfg.initial_trusted.is_empty() && rng.chance(2, 3) { *rng.pick(&cfg.initial_trusted) } else { rng.below(CHAINS.len() as u64) as u8 },
-                    spender: rng.below(4) as u8,
+                    spender: if rng.chance(1, 10) { *rng.pick(&[200u8, 200, 201]) } else { rng.below(4) as u8 },
                     gas_tok: rng.below(2) as u8,
                     gas: *rng.pick(&[1i64, 1, 10, 0, -1, 1_000_000]),
                     auth: if fault { user_fault(rng) } else if f_auth && rng.chance(1, 6) { AuthVar::Everyone } else { AuthVar::Right },
